@@ -25,8 +25,8 @@ inductive Reg where
   | n (ds : List Nat) (ls : List Nat)
   /-- `JA` + decimal numbers `ds` + letters (indices into `LIMITED_ALPHABET`) -/
   | ja (ds : List Nat) (ls : List Nat)
-  /-- `HL` + `v` in upper-case hexadecimal -/
-  | hl (v : Nat)
+  /-- arm number `row` of `hl_reg`: `HL` + `v` in upper-case hexadecimal -/
+  | hl (row : Nat) (v : Nat)
   /-- numeric mapping number `row` (position in `NUMERIC_MAPPINGS`), registration number `v` -/
   | num (row : Nat) (v : Nat)
   /-- stride mapping number `row` (position in `STRIDE_MAPPINGS`), three alphabet indices -/
@@ -125,14 +125,14 @@ def jaReg (h : Nat) : Outcome (Option Reg) :=
 
 /-! ### Republic of Korea: `hl_reg` -/
 
-def hlGo (h : Nat) : List HlRow → Outcome (Option Reg)
-  | [] => .ok none
-  | r :: rs =>
+def hlGo (h : Nat) : List HlRow → Nat → Outcome (Option Reg)
+  | [], _ => .ok none
+  | r :: rs, k =>
     if r.lo ≤ h ∧ h ≤ r.hi then
-      (subU h r.sub).bind fun x => (addU 32 x r.add).bind fun v => .ok (some (.hl v))
-    else hlGo h rs
+      (subU h r.sub).bind fun x => (addU 32 x r.add).bind fun v => .ok (some (.hl k v))
+    else hlGo h rs (k + 1)
 
-def hlReg (h : Nat) : Outcome (Option Reg) := hlGo h hlRows
+def hlReg (h : Nat) : Outcome (Option Reg) := hlGo h hlRows 0
 
 /-! ### Numeric mappings -/
 
@@ -244,7 +244,7 @@ def tail (h : Nat) : Outcome (Option Reg) :=
 def render : Reg → List Char
   | .n ds ls => 'N' :: ((ds.flatMap dec) ++ ls.map symL)
   | .ja ds ls => 'J' :: 'A' :: ((ds.flatMap dec) ++ ls.map symL)
-  | .hl v => 'H' :: 'L' :: hex v
+  | .hl _ v => 'H' :: 'L' :: hex v
   | .num row v =>
     let t := (numericRows.getD row default).template
     t.take (t.length - (dec v).length) ++ dec v
